@@ -105,6 +105,7 @@ contract(
     params={"self": Rec("Template", _module="liquid2.template", uptodate=Union(NoneT, Opaque(lambda ex, name: PyCallable(lambda e, a, k: e.sym("uptodate_result", "bool"), "uptodate"), "callable")))},
     post=["implies(self.uptodate is None, result == True)",
           "implies(self.uptodate is not None, result == uptodate_result())"],
+    partial_domain="the uptodate callable returns a bool (the `return False` for a non-bool answer is outside this domain)",
     raises={},
 )
 
